@@ -186,7 +186,7 @@ def run_req(rec, case):
             V('gateway-protocol', 'gateway protocol violated: %r' % (
                 t.proto[:3],))
         judge_background(rec, sim, V)
-        if rec.evaluations % 487 == 0:
+        if rec.evaluations % 487 == 1:
             rec.sample({'request': desc, 'status': t.status})
     finally:
         sim.teardown()
